@@ -84,9 +84,26 @@ def _worker(task):
             b = callmc.bind_by_call(ref, args, kw)
             if b is not None:
                 bound.append(((a, kw), b))
-        for ign in ignore_specs(tier, form == 'method'):
-            for kmname, mk in kms:
-                if form == 'function':
+        variants = [(ign, ign, kmname, mk, None) for ign in ignore_specs(tier, form == 'method') for kmname, mk in kms]
+        if form == 'function' and plain.npos >= 1:
+            # every one of the twelve decorator classes, with `ignore` given as a bare name / index instead of a tuple
+            import klepto.safe
+            for mod in (klepto, klepto.safe):
+                for alg in ('no', 'inf', 'lfu', 'lru', 'mru', 'rr'):
+                    for bare in (0, 1, 'a', '*', '**'):
+                        variants.append(((bare,), bare, kms[0][0] if mod is klepto else kms[1][0], kms[0][1] if mod is klepto else kms[1][1],
+                                         (mod, alg)))
+        for ign, ign_arg, kmname, mk, deco in variants:
+            if True:
+                if deco is not None:
+                    f = plain.compile()
+                    mod, alg = deco
+                    kw = {} if alg in ('no', 'inf') else {'maxsize': 100000}
+                    W = getattr(mod, alg + '_cache')(keymap=mk(), ignore=ign_arg, **kw)(f)
+                    prefix = ()
+                    counter = f.CALLS
+                    kmname = '%s %s.%s_cache(ignore=%r)' % (kmname, mod.__name__, alg, ign_arg)
+                elif form == 'function':
                     f = plain.compile()
                     W = klepto.inf_cache(keymap=mk(), ignore=ign)(f)
                     prefix = ()
@@ -128,7 +145,7 @@ def _worker(task):
                                                     {'spec': spec, 'form': form, 'ignore': list(ign), 'keymap': kmname, 'calls': [o[1], (a, kw)]}))
                 res['nontrivial'] += sum(1 for g0 in groups.values() if len(g0[2]) >= 2)
                 # through the cache: one evaluation per masked binding
-                if kmname != 'keymap()' or True:
+                if deco is None or deco[1] != 'no':
                     try:
                         n0 = counter[0]
                         for (a, kw), b in bound:
